@@ -116,3 +116,36 @@ impl HeaderInner {
         })
     }
 }
+
+/// Decodes a serialized header into (header version, vec version, computed version, stamp, format).
+#[cfg(feature = "verif")]
+pub fn verif_header_from_bytes(bytes: &[u8]) -> Result<(Version, Version, Version, Stamp, Format)> {
+    let h = HeaderInner::from_bytes(bytes)?;
+    Ok((
+        h.header_version,
+        h.vec_version,
+        h.computed_version,
+        h.stamp,
+        h.format,
+    ))
+}
+
+/// Encodes a header.
+#[cfg(feature = "verif")]
+pub fn verif_header_to_bytes(
+    header_version: Version,
+    vec_version: Version,
+    computed_version: Version,
+    stamp: Stamp,
+    format: Format,
+) -> Vec<u8> {
+    HeaderInner {
+        header_version,
+        vec_version,
+        computed_version,
+        stamp,
+        format,
+    }
+    .to_bytes()
+    .to_vec()
+}
